@@ -8,7 +8,7 @@ Tie: S-uri correspondence (htp_parse_uri, htp_parse_hostport, port conversion of
 htp_normalize_parsed_uri) between the extracted model and the library built from the working tree under
 ASan+UBSan. Oracle: the extracted check_C13 / check_C13_port evaluated on the IMPLEMENTATION's output
 for every case inside the proved premise."""
-import json, itertools
+import json, itertools, os
 import vf
 
 ALPHA = b"a:/@?#[].09 "          # the property's 12-symbol alphabet
@@ -275,17 +275,17 @@ def replay_known(ctx):
 def check(ctx):
     pr = vf.proof_step(ctx, "Properties_C13")
     tally = Tally()
-    L = 6 if ctx.thorough() else 5
-    # (a) exhaustive over the property's alphabet, in blocks by length / first symbol (bounded memory)
-    blocks = [["uri\tp\t" + vf.hexs(s) for s in vf.strings_upto(ALPHA, min(L, 5))]]
-    if L >= 6:
-        for a in ALPHA:
-            blocks.append(None)   # generated lazily below
+    L = int(os.environ.get("VERIF_C13_MAXLEN", "6" if ctx.thorough() else "5"))
+    # (a) exhaustive over the property's alphabet, in blocks (bounded memory): lengths 0..5 at once, then one block
+    # per (length, prefix) for the longer ones
     n_exh = 0
-    for bi, b in enumerate(blocks):
-        if b is None:
-            a = ALPHA[bi - 1]
-            b = ["uri\tp\t" + vf.hexs(bytes([a]) + bytes(t)) for t in itertools.product(ALPHA, repeat=5)]
+
+    def blocks():
+        yield ["uri\tp\t" + vf.hexs(s) for s in vf.strings_upto(ALPHA, min(L, 5))]
+        for ln in range(6, L + 1):
+            for pre in itertools.product(ALPHA, repeat=ln - 5):
+                yield ["uri\tp\t" + vf.hexs(bytes(pre) + bytes(t)) for t in itertools.product(ALPHA, repeat=5)]
+    for b in blocks():
         n_exh += len(b)
         run_suite(ctx, "S-uri-exhaustive", b, tally)
     # (b) structured, (b') short strings for hostport/port, (c) random
